@@ -125,6 +125,19 @@ func genC06(t *rapid.T) C06Case {
 		}
 		a.Audiences = append(a.Audiences, auds)
 	}
+	// a LATER restriction whose single audience is the JOIN of an earlier restriction's audiences (what a careless
+	// cache / set key of a restriction looks like): it is a different, unsatisfied restriction
+	if len(a.Audiences) >= 1 && rapid.IntRange(0, 3).Draw(t, "joinedRestriction") == 0 {
+		src := a.Audiences[rapid.IntRange(0, len(a.Audiences)-1).Draw(t, "joinOf")]
+		if len(src) >= 2 {
+			sep := rapid.SampledFrom([]string{",", " ", ";", "|", "", "\n", ", ", "\x1f"}).Draw(t, "joinSep")
+			joined := strings.Join(src, sep)
+			if rapid.Bool().Draw(t, "joinTrailingSep") {
+				joined += sep
+			}
+			a.Audiences = append(a.Audiences, []string{joined})
+		}
+	}
 	a.OneTimeUse = rapid.Bool().Draw(t, "oneTimeUse")
 	if rapid.Bool().Draw(t, "proxy") {
 		a.HasProxy = true
@@ -326,6 +339,25 @@ func TestC06_Grid(t *testing.T) {
 			c.First.Audiences = l
 			finishC06(&c, func(err error) { t.Fatalf("harness: %v", err) })
 			cases = append(cases, c)
+		}
+	}
+	// satisfied multi-audience restriction followed by (or preceded by) the restriction made of their join
+	for i, sep := range []string{",", " ", ";", "|", "", ", "} {
+		for j, order := range []int{0, 1} {
+			sp := h.BaseSP()
+			first := []string{"urn:partner", sp.Audience}
+			joined := []string{strings.Join(first, sep)}
+			c := C06Case{SP: sp, Mode: []string{"response", "assertions"}[(i+j)%2], Window: "in"}
+			c.First.Audiences = [][]string{first, joined}
+			if order == 1 {
+				c.First.Audiences = [][]string{joined, first}
+			}
+			finishC06(&c, func(err error) { t.Fatalf("harness: %v", err) })
+			cases = append(cases, c)
+			c2 := C06Case{SP: sp, Mode: "response", Window: "in"}
+			c2.First.Audiences = [][]string{first, {strings.Join(first, sep) + sep}, first}
+			finishC06(&c2, func(err error) { t.Fatalf("harness: %v", err) })
+			cases = append(cases, c2)
 		}
 	}
 	// configured URIs with pattern metacharacters: exact match, pattern-only match, plain miss
